@@ -19,6 +19,7 @@ import (
 	"google.golang.org/grpc/status"
 
 	"verif/sim/kernel"
+	"verif/sim/lockrt"
 	"verif/sim/oracle"
 	"verif/sim/reflog"
 )
@@ -34,6 +35,7 @@ type Mode struct {
 	Foreign     bool  // C07: the tree may already hold leaves no front end of this version wrote (undecodable, trailing bytes, no extra data)
 	External    bool  // C14: second instance with external chain storage
 	LostReply   bool  // C01: the reply to an applied QueueLeaf may be lost (crash between backend and response)
+	Lock        bool  // lockstep build (DESIGN §16): mutexes, go statements and statement boundaries of trillian/ctfe are seams
 	ReadWeights []int // sth, consistency, proof-by-hash, entries, entry-and-proof, roots
 	Oracle      func(w *World, op *Op)
 	Final       func(w *World)
@@ -98,7 +100,8 @@ type World struct {
 	rootsFile string
 	started   int
 	auditing  bool
-	mu        sync.Mutex // timed mode only: guards opSeq and active
+	ls        *kernel.Lockstep // lockstep specs only
+	mu        sync.Mutex       // timed mode only: guards opSeq and active
 }
 
 // New returns a constructor for the kernel.
@@ -117,6 +120,7 @@ var codesAll = []codes.Code{codes.Canceled, codes.Unknown, codes.InvalidArgument
 func (w *World) Init(s *kernel.Sim) {
 	w.s = s
 	t := s.T
+	w.lockInit()
 	p := &w.prof
 	p.Replicas = t.Range(1, 3)
 	// only forward skew: the handlers derive their RPC deadline from the same TimeSource, and a
@@ -230,6 +234,9 @@ func (w *World) build() {
 		w.storeForeignLeaves(epoch)
 	}
 	s.Logf("profile %+v pki roots=%d", *p, len(w.pki.Roots))
+	if w.ls != nil {
+		s.Logf("%s", w.ls.Describe())
+	}
 }
 
 // storeForeignLeaves puts 1-3 entries into the tree before the run that were not
@@ -541,8 +548,39 @@ func (w *World) launch(op *Op) {
 	if op.Legacy {
 		rep = w.legacy
 	}
-	w.s.Go(func() { Serve(w.s, rep.inst, w.prefix, op, w.ctx) })
+	w.s.Go(func() {
+		if w.ls != nil {
+			w.ls.RT.SetName(op.Party) // the request's goroutine and whatever it spawns inside trillian/ctfe descend from it
+		}
+		Serve(w.s, rep.inst, w.prefix, op, w.ctx)
+	})
 }
+
+// lockInit installs the lockstep runtime for the run (lock specs), or none.
+func (w *World) lockInit() {
+	if !w.mode.Lock {
+		lockrt.Install(nil)
+		return
+	}
+	w.ls = kernel.NewLockstep(w.s, true)
+	lockrt.Install(w.ls.RT)
+}
+
+// lockSpecs: the lockstep variants exist only in the binary built from the rewritten tree.
+func lockSpecs(specs []kernel.Spec) []kernel.Spec {
+	if !lockrt.Enabled {
+		return specs
+	}
+	return append(specs,
+		kernel.Spec{Prop: "C06lock", Mk: New(Mode{Prop: "C06", Lock: true, Submits: true, Reads: true, Oracle: oracleC06, Final: finalC06}), Limits: limLock},
+		kernel.Spec{Prop: "C07lock", Mk: New(Mode{Prop: "C07", Lock: true, Submits: true, Reads: true, BadReqs: true, Boundary: true, Foreign: true, ReadWeights: []int{1, 0, 0, 8, 3, 0}, Oracle: oracleC07}), Limits: limLock},
+		kernel.Spec{Prop: "C14lock", Mk: New(Mode{Prop: "C14", Lock: true, External: true, Submits: true, Reads: true, ReadWeights: []int{1, 0, 0, 8, 4, 0}, Oracle: oracleC14, Final: finalC14}), Limits: limLock},
+		kernel.Spec{Prop: "C01lock", Mk: New(Mode{Prop: "C01", Lock: true, Submits: true, LostReply: true, Oracle: oracleC01}), Limits: limLock},
+		kernel.Spec{Prop: "C08lock", Mk: New(Mode{Prop: "C08", Lock: true, Faults: true, BadReqs: true, Reads: true, Submits: true, Oracle: oracleC08}), Limits: limLock},
+	)
+}
+
+var limLock = kernel.Limits{MaxSteps: 1500, SettleSteps: 3000}
 
 // ---- driver options ----
 
@@ -652,6 +690,9 @@ func (w *World) Options(s *kernel.Sim) []kernel.Option {
 
 // AfterStep implements kernel.World: harvest finished operations in id order.
 func (w *World) AfterStep(s *kernel.Sim) {
+	if w.ls != nil && w.ls.Check() {
+		return
+	}
 	for _, op := range w.ops {
 		op.mu.Lock()
 		done := op.Done
@@ -687,6 +728,9 @@ func (w *World) StateKey() string {
 
 // Finish implements kernel.World.
 func (w *World) Finish(s *kernel.Sim) {
+	if w.ls != nil {
+		w.ls.Quiet() // the audit answers everything in canonical order; nothing parks at locks or yields any more
+	}
 	if w.mode.Final != nil {
 		w.auditing = true
 		w.mode.Final(w)
